@@ -116,6 +116,47 @@ fn main() {
             let only = arg(&args, "--only");
             let scope_all = args.iter().any(|a| a == "--all-props");
             harness::set_free_on_drop(args.iter().any(|a| a == "--free-on-drop"));
+            let hang_secs: f64 = arg(&args, "--hang-secs").and_then(|s| s.parse().ok()).unwrap_or(30.0);
+            if let Some(tf) = arg(&args, "--trace-file") {
+                let f = std::fs::File::create(&tf).expect("create trace file");
+                let _ = core::TRACE_FILE.set(std::sync::Mutex::new(f));
+            }
+            {
+                // hang watchdog: a library call that does not return is reported with its history
+                let out = out.clone();
+                let prop = prop.clone();
+                let tier = tier.clone();
+                std::thread::spawn(move || loop {
+                    std::thread::sleep(std::time::Duration::from_millis(500));
+                    let p = core::progress();
+                    for slot in p.slots.iter() {
+                        let cur = slot.lock().unwrap().clone();
+                        if let Some((t, i, op)) = cur {
+                            if t.elapsed().as_secs_f64() > hang_secs {
+                                let mut hist: Vec<String> = match p.formatter.lock().unwrap().as_ref() {
+                                    Some(f) => f(i),
+                                    None => vec![],
+                                };
+                                if let Some(o) = op {
+                                    hist.push(o);
+                                }
+                                let cfg = p.cfg.lock().unwrap().clone();
+                                let system = cfg.as_ref().map(|c| c.system).unwrap_or("?");
+                                let attributed = if system.starts_with("ring.") { "C19" } else if system.starts_with("ds.") { "C20" } else { "C01" };
+                                let doc = json!({
+                                    "engine": "E-SEQ", "property": prop, "tier": tier, "runs": [], "violations": 1,
+                                    "hang": {"attributed_to": attributed, "config_json": cfg.as_ref().map(|c| c.to_json()), "config": cfg.as_ref().map(|c| c.label()),
+                                             "history": hist, "seconds": hang_secs,
+                                             "message": format!("a library call did not return within {} s (infinite loop / deadlock inside the crate)", hang_secs)},
+                                });
+                                let _ = std::fs::write(&out, serde_json::to_string_pretty(&doc).unwrap());
+                                eprintln!("HANG detected in {} after history {:?}", system, hist);
+                                std::process::exit(0);
+                            }
+                        }
+                    }
+                });
+            }
             let jobs = plan::plan(&prop, &tier);
             if jobs.is_empty() {
                 eprintln!("no E-SEQ/E-DS jobs for property {} tier {}", prop, tier);
@@ -181,6 +222,12 @@ fn main() {
             let cfg = Cfg { system, params };
             let names: Vec<String> = doc["history"].as_array().expect("history").iter().map(|v| v.as_str().unwrap().to_string()).collect();
             harness::set_free_on_drop(args.iter().any(|a| a == "--free-on-drop"));
+            let hang_secs: f64 = arg(&args, "--hang-secs").and_then(|s| s.parse().ok()).unwrap_or(30.0);
+            std::thread::spawn(move || {
+                std::thread::sleep(std::time::Duration::from_secs_f64(hang_secs));
+                println!("VIOLATION hang: the replayed history did not finish within {} s (a library call does not return)", hang_secs);
+                std::process::exit(1);
+            });
             match run_replay(&cfg, &names) {
                 Ok(log) => {
                     let mut bad = false;
